@@ -184,9 +184,19 @@ def gen_slice_items(rng, T, v, cfg, maxitems=3):
     return items
 
 
+def _size(v):
+    if isinstance(v, (list, tuple)):
+        return 1 + sum(_size(x) for x in v)
+    if isinstance(v, dict):
+        return 1 + sum(_size(x) for x in v.values())
+    return 1
+
+
 def gen_op(rng, T, v, cfg, families=None):
     fams = families or ALL_FAMILIES
     fam = rng.choice(fams)
+    if fam == "combinations" and _size(v) > 150:      # keep chained combinations from exploding
+        fam = "structure"
     name = rng.choice(FAMILIES[fam])
     n = len(v)
     op = {"op": name}
